@@ -103,3 +103,72 @@ def loop_over(func, pred):
     if not hits:
         raise AnalysisError(f"walker loop not found in {func.name}")
     return hits[0]
+
+
+# -- symbolic (purely syntactic) cursor table of a CIGAR walker ----------------------------------------
+
+
+def _ops_of_test(test, opname):
+    """Set of op codes a branch test selects: op == k, op in [..], a or b ... ; None if not recognised."""
+    if isinstance(test, ast.Compare) and len(test.ops) == 1 and isinstance(test.left, ast.Name) and test.left.id == opname:
+        c = test.comparators[0]
+        if isinstance(test.ops[0], ast.Eq) and isinstance(c, ast.Constant) and isinstance(c.value, int):
+            return {c.value}
+        if isinstance(test.ops[0], ast.In) and isinstance(c, (ast.List, ast.Tuple, ast.Set)) and \
+                all(isinstance(e, ast.Constant) and isinstance(e.value, int) for e in c.elts):
+            return {e.value for e in c.elts}
+    if isinstance(test, ast.BoolOp) and isinstance(test.op, ast.Or):
+        out = set()
+        for v in test.values:
+            s = _ops_of_test(v, opname)
+            if s is None:
+                return None
+            out |= s
+        return out
+    return None
+
+
+def symbolic_cursor_table(loop: ast.For):
+    """For `for op, size in <cigar>:` with an if/elif chain on `op`: {op code: set of cursor names advanced by `size`}.
+    Returns None when the loop is not of that shape (then only the folded table is available)."""
+    if not (isinstance(loop.target, ast.Tuple) and len(loop.target.elts) == 2 and
+            all(isinstance(e, ast.Name) for e in loop.target.elts)):
+        return None
+    opname, szname = loop.target.elts[0].id, loop.target.elts[1].id
+    table = {}
+    for st in loop.body:
+        cur = st
+        while isinstance(cur, ast.If):
+            ops = _ops_of_test(cur.test, opname)
+            if ops is None:
+                return None
+            adv = set()
+            for n in cur.body:
+                for x in ast.walk(n):
+                    if isinstance(x, ast.AugAssign) and isinstance(x.op, ast.Add) and isinstance(x.target, ast.Name) \
+                            and isinstance(x.value, ast.Name) and x.value.id == szname and _top_level_in(cur.body, x):
+                        adv.add(x.target.id)
+            for k in ops:
+                table.setdefault(k, set()).update(adv)
+            cur = cur.orelse[0] if len(cur.orelse) == 1 else None
+    return table or None
+
+
+def _top_level_in(body, node):
+    """The cursor increment belongs to the branch itself, not to an inner per-base loop."""
+    for st in body:
+        if st is node:
+            return True
+        if isinstance(st, ast.If):
+            if _top_level_in(st.body, node) or _top_level_in(st.orelse, node):
+                return True
+    return False
+
+
+def cigar_loops(func):
+    out = []
+    for n in ast.walk(func):
+        if isinstance(n, ast.For) and isinstance(n.target, ast.Tuple) and len(n.target.elts) == 2 \
+                and all(isinstance(e, ast.Name) for e in n.target.elts) and n.target.elts[0].id == "op":
+            out.append(n)
+    return out
